@@ -282,6 +282,39 @@ func runC09(c *Ctx) {
 	c.Rule("C09-D2", "header layout agreement: the writer emits <type>[<n>-][<nsp>,][<id>]<json> — each optional field exactly under its own condition, independent of the others — and the reader consumes the same fields in the same order with the same delimiters", 30)
 	headerLayout(c, "C09-D2")
 
+	c.Rule("C09-D5", "the ack id keeps its full uint64 range and base on both sides (FormatUint base 10 / ParseUint base 10, width 0 or 64); the frames Encode returns are freshly allocated (not scratch storage of the parser that a later Encode would overwrite)", 4)
+	{
+		rd := p.Fn("jsonparser", "Parser.parseHeader")
+		idSt := findInstrs(rd, fieldStorePred(p.Field("parser", "PacketHeader", "ID")))
+		okW := false
+		detail := "no ParseUint feeds header.ID"
+		for _, cs := range CallsTo(Calls(rd), `strconv\.ParseUint`) {
+			// the call whose result is stored (through the local `num`) into header.ID
+			feeds := false
+			for _, st := range idSt {
+				if al, isAl := st.(*ssa.Store).Val.(*ssa.Alloc); isAl && al.Referrers() != nil {
+					for _, r2 := range *al.Referrers() {
+						if s2, isSt := r2.(*ssa.Store); isSt && s2.Addr == ssa.Value(al) && strings.HasPrefix(Term(s2.Val), Term(cs.Instr.(*ssa.Call))) {
+							feeds = true
+						}
+					}
+				}
+			}
+			if !feeds {
+				continue
+			}
+			base, bits := Term(cs.Arg(1)), Term(cs.Arg(2))
+			okW = base == "10" && (bits == "0" || bits == "64")
+			detail = "the ack id is parsed with base " + base + ", bit size " + bits + " (the writer emits the full uint64 in base 10: ids >= 2^" + bits + " would be rejected)"
+		}
+		c.Ob("C09-D5", "jsonparser.Parser.parseHeader/id-width", rd.Pos(), okW, detail)
+		wr := p.Fn("jsonparser", "Parser.encodeString")
+		fu := CallsTo(Calls(wr), `strconv\.FormatUint`)
+		c.Ob("C09-D5", "jsonparser.Parser.encodeString/id-base", wr.Pos(), len(fu) == 1 && Term(fu[0].Arg(0)) == "*header.ID" && Term(fu[0].Arg(1)) == "10", "the ack id must be written as FormatUint(*header.ID, 10)")
+		freshResult2(c, "C09-D5", "jsonparser.Parser.encodeBinary", p.Fn("jsonparser", "Parser.encodeBinary"))
+		freshResult2(c, "C09-D5", "jsonparser.Parser.Encode", p.Fn("jsonparser", "Parser.Encode"))
+	}
+
 	c.Rule("C09-D3", "packet-type table = Socket.IO protocol v5: CONNECT 0, DISCONNECT 1, EVENT 2, ACK 3, CONNECT_ERROR 4, BINARY_EVENT 5, BINARY_ACK 6; ToChar/FromChar are inverse with bounds '0'..'6'; Encode promotes EVENT→BINARY_EVENT and ACK→BINARY_ACK only", 10)
 	{
 		want := map[string]string{"PacketTypeConnect": "0", "PacketTypeDisconnect": "1", "PacketTypeEvent": "2", "PacketTypeAck": "3", "PacketTypeConnectError": "4", "PacketTypeBinaryEvent": "5", "PacketTypeBinaryAck": "6"}
@@ -350,6 +383,26 @@ func runC09(c *Ctx) {
 			return ok && b.Op == token.ADD && strings.HasSuffix(Term(b.X), ".Num") && Term(b.Y) == "1"
 		})
 		c.Ob("C09-D4", "jsonparser.reconstructBinaryValue/index-base", rb.Pos(), len(plus) == 1, "the decoder must index buffers with num + 1 (buffer 0 is the header frame)")
+		// sibling agreement: EVERY attachment lookup of the decoder indexes r.buffers with (wire number + 1)
+		nIdx := 0
+		for _, fnn := range []string{"reconstructor.reconstructBinaryValue", "reconstructor.reconstructMap", "reconstructor.reconstructValue", "reconstructor.reconstructStruct"} {
+			f := p.Fn("jsonparser", fnn)
+			for _, ff := range WithAnons(f) {
+				for _, b := range ff.Blocks {
+					for _, in := range b.Instrs {
+						ia, ok := in.(*ssa.IndexAddr)
+						if !ok || Term(ia.X) != "r.buffers" {
+							continue
+						}
+						nIdx++
+						bo, isB := ia.Index.(*ssa.BinOp)
+						okI := isB && bo.Op == token.ADD && Term(bo.Y) == "1" && (strings.Contains(Term(bo.X), ".Num") || strings.Contains(Term(bo.X), ".Float()"))
+						c.Ob("C09-D4", "jsonparser."+fnn+"/attachment-index", ia.Pos(), okI, "an attachment is looked up as r.buffers["+Term(ia.Index)+"] (expected the wire number + 1: buffer 0 is the header frame; sibling branches must agree)")
+					}
+				}
+			}
+		}
+		c.Ob("C09-D4", "jsonparser.reconstruct/attachment-lookups", rb.Pos(), nIdx == 3, fmt.Sprintf("%d attachment lookups found in the decoder (expected 3: typed Binary and the two map-key orders)", nIdx))
 		eb := p.Fn("jsonparser", "Parser.encodeBinary")
 		okPre := false
 		for _, cs := range CallsTo(Calls(eb), "append") {
@@ -363,5 +416,54 @@ func runC09(c *Ctx) {
 		ad := p.Fn("jsonparser", "Parser.Add")
 		rf := findInstrs(ad, fieldStorePred(p.Field("jsonparser", "reconstructor", "remaining")))
 		c.Ob("C09-D4", "jsonparser.Parser.Add/expects-announced-count", ad.Pos(), len(rf) == 1 && Term(rf[0].(*ssa.Store).Val) == "p.parseHeader(data)#0.Attachments", "the decoder must wait for exactly the announced number of attachments")
+	}
+}
+
+// freshResult2: the first result of fn is never (a re-slicing / append onto) storage reachable from a field of the receiver.
+func freshResult2(c *Ctx, rule, name string, fn *ssa.Function) {
+	for _, b := range fn.Blocks {
+		ret, ok := b.Instrs[len(b.Instrs)-1].(*ssa.Return)
+		if !ok || len(ret.Results) < 1 || (len(b.Preds) == 0 && b.Index != 0) {
+			continue
+		}
+		bad := ""
+		seen := map[ssa.Value]bool{}
+		var walk func(v ssa.Value)
+		walk = func(v ssa.Value) {
+			if seen[v] || bad != "" {
+				return
+			}
+			seen[v] = true
+			switch x := v.(type) {
+			case *ssa.Phi:
+				for _, e := range x.Edges {
+					walk(e)
+				}
+			case *ssa.Slice:
+				walk(x.X)
+			case *ssa.Extract:
+				walk(x.Tuple)
+			case *ssa.Call:
+				if bi, isB := x.Call.Value.(*ssa.Builtin); isB && bi.Name() == "append" {
+					walk(x.Call.Args[0])
+				}
+			case *ssa.UnOp:
+				if fa, isFA := x.X.(*ssa.FieldAddr); isFA {
+					if par, isPar := fa.X.(*ssa.Parameter); isPar && par == fn.Params[0] {
+						bad = Term(x)
+					}
+					return
+				}
+				if al, isAl := x.X.(*ssa.Alloc); isAl && al.Referrers() != nil {
+					for _, r := range *al.Referrers() {
+						if st, isSt := r.(*ssa.Store); isSt && st.Addr == ssa.Value(al) {
+							walk(st.Val)
+						}
+					}
+				}
+			}
+		}
+		walk(ret.Results[0])
+		c.Ob(rule, name+"/fresh-frames", ret.Pos(), bad == "", "the returned frames are built on "+bad+", storage kept on the parser: a later Encode overwrites frames a caller still holds")
 	}
 }
